@@ -5,3 +5,5 @@ open Photon.Sync
 #print axioms C02_sub_guard
 #print axioms C02_no_stuck_waiter
 #print axioms C01_no_stuck_at_quiescence
+#print axioms Photon.SemLog.C02_mv_conservation
+#print axioms Photon.SemLog.C02_mv_no_late_write
